@@ -43,7 +43,7 @@ TableOf(t, arr) ==
     LET ps == ToSet(arr) IN
     [k \in { p[1] : p \in ps } |-> NameOf(t, (CHOOSE p \in ps : p[1] = k)[2])]
 
-EnvEvents == {"Crash", "Close", "Purge", "MoveFails"}
+EnvEvents == {"Crash", "Close", "Purge", "MoveFails", "StagedLost"}
 
 Bind(t, i) ==
     LET r == Rec(t, i) IN
@@ -91,6 +91,7 @@ ModelStep(r) ==
          [] r.ev = "Answer"      -> Answer
          [] r.ev = "Crash"       -> Crash(r.obs.site)
          [] r.ev = "MoveFails"   -> MoveFails
+         [] r.ev = "StagedLost"  -> StagedLost
          [] r.ev = "Close"       -> Close
          [] r.ev = "Purge"       -> Purge
          [] OTHER -> FALSE
